@@ -236,6 +236,9 @@ func pkgFuncs(m *Module, p *packages.Package) map[string]*FuncInfo {
 				continue
 			}
 			obj, _ := p.TypesInfo.Defs[fd.Name].(*types.Func)
+			if isInlinedAway(obj) {
+				continue
+			}
 			name := declName(fd)
 			out[name] = &FuncInfo{M: m, Pkg: p, Decl: fd, Obj: obj, Name: name}
 		}
